@@ -103,14 +103,22 @@ structure MState where
   /-- completed calls in unlock order, and what they returned -/
   log : List Op
   results : List Res
+  /-- answers of the lock-free `pool.Get` calls made so far by any goroutine: (caller, name, answer), in order -/
+  got : List (Nat × Name × GetRes) := []
 
-def minit : MState := { st := init, hold := none, busy := fun _ => false, log := [], results := [] }
+def minit : MState := { st := init, hold := none, busy := fun _ => false, log := [], results := [], got := [] }
+
+/-- what `AdaptedClientPool.Get(n)` answers at this instant: a `sync.Map.Load` on `conns` + the client check of the
+    fixed code (D17); it takes no lock, so it reads the CURRENT concrete state, mid-Add / mid-Remove included -/
+def getRet (m : MState) (n : Name) : GetRes := poolGet true m.st n
 
 inductive Label
   | lock (i : Nat) (op : Op)
   | step (i : Nat)
   | unlock (i : Nat)
   | pollerBusy (g : Nat) | pollerIdle (g : Nat)
+  /-- lock-free `pool.Get n` by goroutine `i` (may be the lock holder's sibling, a request handler, …) -/
+  | get (i : Nat) (n : Name)
   deriving DecidableEq, Repr
 
 /-- `Resolver.Close` blocks in `r.done <- struct{}{}` while the poller is busy; a returned call has no next statement -/
@@ -138,6 +146,8 @@ def mstep (m : MState) : Label → Option MState
     | _ => none
   | .pollerBusy g => if m.st.polling g then some { m with busy := upd m.busy g true } else none
   | .pollerIdle g => some { m with busy := upd m.busy g false }
+  -- enabled in EVERY state (no lock, no blocking); the concrete state is untouched, the answer is recorded
+  | .get i n => some { m with got := m.got ++ [(i, n, getRet m n)] }
 
 /-- the sequential state after the completed calls -/
 def base (m : MState) : State := afterR true (m.log.map Op.toROp)
